@@ -335,12 +335,12 @@ def _exec_train(plan, ctx):
         return _result(world, evals, counters, kinds, violations, discarded=True)
     total_moved = 0.0
     for si, seg in enumerate(plan["segments"]):
-        X = make_data(cfg["in_sig"], seg["L"], D, cfg["spatial"], cfg["torus"], plan["data_seed"] + si)
-        Y = make_data(cfg["out_sig"], seg["L"], D, cfg["spatial"], cfg["torus"], plan["data_seed"] + 1000 + si)
+        X = make_data(cfg["in_sig"], seg["L"], D, cfg["spatial"], zoo.torus_flags(cfg), plan["data_seed"] + si)
+        Y = make_data(cfg["out_sig"], seg["L"], D, cfg["spatial"], zoo.torus_flags(cfg), plan["data_seed"] + 1000 + si)
         VX = VY = None
         if seg["val"]:
-            VX = make_data(cfg["in_sig"], seg["B"], D, cfg["spatial"], cfg["torus"], plan["data_seed"] + 2000 + si)
-            VY = make_data(cfg["out_sig"], seg["B"], D, cfg["spatial"], cfg["torus"], plan["data_seed"] + 3000 + si)
+            VX = make_data(cfg["in_sig"], seg["B"], D, cfg["spatial"], zoo.torus_flags(cfg), plan["data_seed"] + 2000 + si)
+            VY = make_data(cfg["out_sig"], seg["B"], D, cfg["spatial"], zoo.torus_flags(cfg), plan["data_seed"] + 3000 + si)
         world.crash_plan = {}
         world.clock.plan = []
         if seg["clock"] == "jumps":
@@ -431,8 +431,8 @@ def _exec_crosstalk(plan, ctx):
     D, L = cfg["D"], plan["L"]
     site0 = f"{cfg['cls']}/{'eq' if cfg['equivariant'] else 'conv'}/norm={cfg['use_group_norm']}"
     model = _perturb(zoo.build_model(cfg, jax.random.PRNGKey(plan["model_key"])), plan["perturb_seed"])
-    X = make_data(cfg["in_sig"], L, D, cfg["spatial"], cfg["torus"], plan["data_seed"])
-    Y = make_data(cfg["out_sig"], L, D, cfg["spatial"], cfg["torus"], plan["data_seed"] + 1)
+    X = make_data(cfg["in_sig"], L, D, cfg["spatial"], zoo.torus_flags(cfg), plan["data_seed"])
+    Y = make_data(cfg["out_sig"], L, D, cfg["spatial"], zoo.torus_flags(cfg), plan["data_seed"] + 1)
     kinds.append(cfg["cls"] + ("/eq" if cfg["equivariant"] else "/conv") + ("/norm" if cfg["use_group_norm"] else ""))
     # each sample alone
     single, floors = [], []
